@@ -189,3 +189,100 @@ def run(ctx, spec_prop="C03"):
         ctx.violation("direct:asan", {"what": "AddressSanitizer/LeakSanitizer report or crash while running lifecycle histories through the C API",
                                       "report": r.stderr[-2500:], "rc": r.returncode}, True)
     return goals, nh, nops
+
+
+# ------------------------------------------------------------------ callbacks through the generated C++ API
+CPP_PRE = r"""
+#include <cstdio>
+#include <cstdint>
+#include <memory>
+#include <functional>
+#include "Tok.hpp"
+#include "Holder.hpp"
+extern "C" void verif_event(uint32_t kind, uint32_t id) { printf(" %s%u", kind == 1 ? "drop" : "hdrop", id); }
+struct Probe { uint32_t id = 0; bool alive = true; ~Probe() { alive = false; printf(" cbdrop%u", id); } };
+static std::function<int32_t(int32_t)> mk(uint32_t id) {
+  auto p = std::make_shared<Probe>(); p->id = id;
+  return [p](int32_t x) { if (!p->alive) { printf(" UAF%u", p->id); return -999; } return x + (int32_t)p->id; };
+}
+"""
+
+
+def gen_cpp_history(rng, n):
+    """[(statement, expected events)]: a Holder keeps at most one callback; storing replaces (and releases) the previous one"""
+    steps, holders, nid = [], {}, [100]
+    def fresh():
+        nid[0] += 1
+        return nid[0]
+    for _ in range(n):
+        r = rng.random()
+        live = sorted(holders)
+        if r < 0.2 or not live:
+            h = fresh(); holders[h] = None
+            steps.append((f"auto h{h} = Holder::new_({h});", []))
+        elif r < 0.5:
+            h = rng.choice(live); c = fresh(); old = holders[h]; holders[h] = c
+            which = rng.choice(["store_fn", "store_mut"])
+            steps.append((f"h{h}->{which}(mk({c}));", [f"cbdrop{old}"] if old else []))
+        elif r < 0.7:
+            h = rng.choice(live); x = rng.randint(-5, 50); c = holders[h]
+            steps.append((f'printf(" r%d", h{h}->call({x}));', [f"r{x + c}" if c else "r-1"]))
+        elif r < 0.8:
+            c = fresh()
+            steps.append((f'printf(" r%d", Holder::call_now(mk({c})));', [f"cbdrop{c}", f"r{20 + c + 1}"]))
+        elif r < 0.9:
+            h = rng.choice(live); c = holders[h]; holders[h] = None
+            steps.append((f"h{h}->clear();", [f"cbdrop{c}"] if c else []))
+        else:
+            h = rng.choice(live); c = holders.pop(h)
+            steps.append((f"h{h}.reset();", ([f"cbdrop{c}"] if c else []) + [f"hdrop{h}"]))
+    for h in sorted(holders):
+        c = holders[h]
+        steps.append((f"h{h}.reset();", ([f"cbdrop{c}"] if c else []) + [f"hdrop{h}"]))
+    return steps
+
+
+def run_cpp_callbacks(ctx):
+    """histories over callbacks handed to Rust through the C++ wrappers (heap copy + destructor), under ASan with
+    stack-use-after-return detection; returns (#histories, #ops)"""
+    rng = ctx.rng
+    d, lib, p = e2e.bridge_crate("c03e", BRIDGE)
+    if lib is None:
+        return 0, 0
+    q = e2e.run_tool("cpp", os.path.join(d, "src/lib.rs"), os.path.join(d, "out_cpp"))
+    if q.returncode != 0:
+        ctx.violation("e2e:tool-cpp", {"broken": "diplomat-tool cpp failed on the lifecycle bridge", "log": q.stderr[-2000:]}, False)
+        return 0, 0
+    nh = 8 if ctx.quick() else 80
+    hists = [gen_cpp_history(rng, rng.choice([6, 12, 25])) for _ in range(nh)]
+    L = [CPP_PRE, "int main() { setvbuf(stdout, NULL, _IONBF, 0);"]
+    for hi, steps in enumerate(hists):
+        L.append(f"  {{ printf(\"H {hi}\\n\");")
+        for si, (stmt, ev) in enumerate(steps):
+            L.append(f'    printf("op {si}:"); {stmt} printf("\\n");')
+        L.append("  }")
+    L.append("  return 0;\n}")
+    src = os.path.join(d, "drv_cb.cpp")
+    open(src, "w").write("\n".join(L))
+    exe = os.path.join(d, "drv_cb")
+    c = sh(["g++", "-std=c++17", "-O0", "-w", "-g", "-fsanitize=address", "-fno-omit-frame-pointer", f"-I{os.path.join(d, 'out_cpp')}", src, lib] + e2e.LINK + ["-o", exe], timeout=600)
+    if c.returncode != 0:
+        ctx.violation("e2e:cpp-compile", {"broken": "callback lifecycle driver does not compile against the generated C++ headers", "log": c.stderr[-2000:]}, False)
+        return 0, 0
+    r = sh([exe], timeout=300, env=dict(ENV, ASAN_OPTIONS="detect_stack_use_after_return=1:detect_leaks=1"))
+    blocks = r.stdout.split("H ")[1:]
+    viol, nops = 0, 0
+    for hi, steps in enumerate(hists):
+        lines = blocks[hi].split("\n")[1:] if hi < len(blocks) else []
+        for si, (stmt, ev) in enumerate(steps):
+            nops += 1
+            line = lines[si] if si < len(lines) else f"op {si}: MISSING"
+            got = line.split(":", 1)[1].split() if ":" in line else ["MISSING"]
+            if got != ev and viol < 2:
+                viol += 1
+                ctx.violation("direct:cpp-callback-lifecycle", {"history": [s[0] for s in steps[:si + 1]], "what":
+                              f"operation #{si} `{stmt}` produced events {got}; a callback handed to Rust is released exactly once, when Rust drops it: {ev}"}, True)
+    if ("AddressSanitizer" in r.stderr or "LeakSanitizer" in r.stderr or r.returncode != 0) and viol < 2:
+        ctx.violation("direct:asan-cpp", {"what": "AddressSanitizer/LeakSanitizer report or crash while running callback histories through the C++ API",
+                                          "report": r.stderr[-2500:], "rc": r.returncode}, True)
+    return nh, nops
